@@ -1123,13 +1123,20 @@ Section NNS.
       + intros q Hq1 Hq2 Hq. rewrite IHfr by (try assumption; intros Hin; apply Hq; right; exact Hin).
         apply Hfr; try assumption. intros ->. apply Hq. left.
       + intros k d [[= -> ->]|Hin]%elem_of_cons.
-        * destruct (Hname_ne _ Hh0) as [Hn1 Hn2]. rewrite (IHfr k0 Hn1 Hn2 Hk0). exact Hent.
+        * destruct (Hname_ne _ Hh0) as [Hn1 Hn2].
+          pose proof (IHfr k0 Hn1 Hn2 Hk0) as E0. unfold nns_entry in *.
+          destruct Hent as (it & fs & nm & name & ? & ? & ? & ? & Hcase).
+          exists it, fs, nm, name. repeat (split; [assumption|]).
+          destruct (is_tld name); [destruct Hcase as (d' & ? & ?); exists d'; split; [assumption|congruence]|congruence].
         * assert (Hhk : head k = Some p_nns_name).
           { rewrite Forall_forall in Hall. exact (Hall _ Hin). }
           destruct (Hname_ne _ Hhk) as [Hn1 Hn2].
           assert (Hne : k <> k0).
           { intros ->. apply Hk0. apply elem_of_list_fmap. exists (k0, d). auto. }
-          rewrite <- (Hfr k Hn1 Hn2 Hne). exact (IHent _ _ Hin).
+          pose proof (Hfr k Hn1 Hn2 Hne) as E1. pose proof (IHent _ _ Hin) as Hent'. unfold nns_entry in *.
+          destruct Hent' as (it & fs & nm & name & ? & ? & ? & ? & Hcase).
+          exists it, fs, nm, name. repeat (split; [assumption|]).
+          destruct (is_tld name); [exact Hcase|congruence].
   Qed.
 
   Lemma is_prefix_head x (k : bytes) : is_prefix [x] k = true -> head k = Some x.
